@@ -153,3 +153,43 @@ Proof. unfold receive_next_src, receive_next. cbv zeta. rewrite src_bc_rx_availa
   rewrite src_bc_rx_is_padding_eq. cbn [bind].
   destruct (get32 mm (Z.land (wrap32 (if v then next_record r else get64 mm (latest_idx cap))) (cap - 1) + 4) =? PADDING); [|reflexivity].
   rewrite src_bc_rx_next_record_after_padding_eq. rewrite bind_assoc. reflexivity. Qed.
+
+(* receive_next as it is since fix a146cb8 (model version W64R): the header words are read, do_validate is called a second
+   time for the cursor they were read at, and only then are they used; when it fails the lap is counted and the receiver
+   restarts at `latest` (that record offset is the model's own expression) *)
+Definition receive_next_srcR (m : mode) (cap : Z) (mm : mem) (r : rx) : outcome (rx * bool) :=
+  let tail := get64 mm (tail_idx cap) in
+  let c0 := next_record r in
+  av <- src_bc_rx_available m tail c0 ;;
+  if av : bool then
+    v <- src_bc_rx_do_validate m cap (get64 mm (intent_idx cap)) c0 ;;
+    let c := if v : bool then c0 else get64 mm (latest_idx cap) in
+    let lp := if v : bool then lapped r else lapped r + 1 in
+    ro <- src_bc_rx_record_offset m (cap - 1) c ;;
+    v2 <- src_bc_rx_do_validate m cap (get64 mm (intent_idx cap)) c ;;
+    if v2 : bool then
+      nr <- src_bc_rx_next_record m (get32 mm ro) c ;;
+      p <- src_bc_rx_is_padding m (get32 mm (ro + 4)) ;;
+      if p : bool then
+        nr2 <- src_bc_rx_next_record_after_padding m nr (get32 mm 0) ;;
+        Ok ({| cursor := nr; next_record := nr2; record_offset := 0; lapped := lp |}, true)
+      else Ok ({| cursor := c; next_record := nr; record_offset := ro; lapped := lp |}, true)
+    else
+      let l := get64 mm (latest_idx cap) in
+      Ok ({| cursor := l; next_record := l; record_offset := Z.land (wrap32 l) (cap - 1); lapped := lp + 1 |}, true)
+  else Ok (r, false).
+
+Theorem receive_next_srcR_eq m cap mm r : receive_next_srcR m cap mm r = receive_next m W64R cap mm r.
+Proof. unfold receive_next_srcR, receive_next. cbv zeta. rewrite src_bc_rx_available_eq. cbn [bind].
+  destruct (get64 mm (tail_idx cap) >? next_record r); [|reflexivity].
+  rewrite src_bc_rx_do_validate_eq. change (do_validate m W64 cap mm (next_record r)) with (do_validate m W64R cap mm (next_record r)).
+  apply bind_ext; intros v _.
+  change (revalidates W64R) with true. cbv iota.
+  rewrite src_bc_rx_record_offset_eq. cbn [bind]. rewrite src_bc_rx_do_validate_eq.
+  change (do_validate m W64 cap mm) with (do_validate m W64R cap mm).
+  apply bind_ext; intros v2 _. destruct v2; [|reflexivity].
+  rewrite src_bc_rx_next_record_eq.
+  rewrite bind_assoc. apply bind_ext; intros a1 _. apply bind_ext; intros nr _.
+  rewrite src_bc_rx_is_padding_eq. cbn [bind].
+  destruct (get32 mm (Z.land (wrap32 (if v then next_record r else get64 mm (latest_idx cap))) (cap - 1) + 4) =? PADDING); [|reflexivity].
+  rewrite src_bc_rx_next_record_after_padding_eq. rewrite bind_assoc. reflexivity. Qed.
